@@ -1,5 +1,5 @@
 """C18 — WebSocket framing round-trips and reassembles under any segmentation (DESIGN §7 C18)."""
-import os, json
+import os, json, hashlib, base64, itertools, threading
 from vlib.core import Ctx, hexs, unhex, ddmin
 
 ID = "C18"
@@ -7,6 +7,12 @@ MODULES = ["IoraModel.Props.C18"]
 OBLIGATIONS = [
     {"id": "C18_W1", "theorem": "Iora.C18.W1_roundtrip", "kind": "proved",
      "statement": "parse (serialize f ++ x) = frame f |serialize f| for every well-formed frame, every payload length < 2^64, masked or not"},
+    {"id": "C18_W1_necessary", "theorem": "Iora.C18.W1_control_bound_necessary", "kind": "proved",
+     "statement": "the well-formedness hypothesis of W1 is necessary: every 126-byte ping serialises to bytes that parse as protocolError"},
+    {"id": "C18_W1_endpoint", "theorem": "Iora.C18.W1_endpoint_frames_wellformed", "kind": "proved",
+     "statement": "every frame a server session hands to the transport, in every history incl. sends from callbacks, is the serialisation of a well-formed frame (sendPing > 125 dropped, close reason cut to 123: FC18c)"},
+    {"id": "C18_W1_endpoint_client", "theorem": "Iora.C18.W1_client_frames_wellformed", "kind": "proved",
+     "statement": "client: every frame sent in every history is well-formed under any 4-byte mask key"},
     {"id": "C18_W2", "theorem": "Iora.C18.W2_prefix_incomplete", "kind": "proved",
      "statement": "every strict prefix of a serialised frame parses as incomplete"},
     {"id": "C18_W3_stable", "theorem": "Iora.C18.W3_stable", "kind": "proved",
@@ -15,33 +21,62 @@ OBLIGATIONS = [
      "statement": "greedy framing with a stable parser yields the same frames for every segmentation of a good stream"},
     {"id": "C18_W3_frames", "theorem": "Iora.C18.W3_frames", "kind": "proved",
      "statement": "every segmentation of a stream of valid frames yields exactly the serialised frames, nothing left over"},
+    {"id": "C18_W3_server_general", "theorem": "Iora.C18.W3_server_events_general", "kind": "proved",
+     "statement": "server events = per-frame handler folded over the frames, for every segmentation and every callback behaviour, whenever every frame reaches a session that still exists"},
     {"id": "C18_W3_server", "theorem": "Iora.C18.W3_server_segmentation_independent", "kind": "proved",
-     "statement": "server events are the same for any two segmentations of a valid close-last stream"},
+     "statement": "server events are the same for any two segmentations of a valid close-last stream whose messages fit the limit"},
     {"id": "C18_W3_server_fn", "theorem": "Iora.C18.W3_server_events_of_frames", "kind": "proved",
      "statement": "server events are a function of the frame list (handler folded over frames)"},
+    {"id": "C18_W3_server_msgs", "theorem": "Iora.C18.W3_server_messages_segmentation_independent", "kind": "proved",
+     "statement": "delivered messages are the same for any two segmentations of ANY stream of valid frames (no CloseOnlyLast, no size condition)"},
     {"id": "C18_W4_reassembly", "theorem": "Iora.C18.W4_reassembly", "kind": "proved",
-     "statement": "fragments joined in order, controls between fragments harmless, ping->pong same payload, text only if UTF-8, delivered once"},
+     "statement": "fragments joined in order, controls between fragments harmless, ping->pong same payload, text only if UTF-8, delivered once, fragment buffer empty afterwards"},
+    {"id": "C18_W4_messages", "theorem": "Iora.C18.W4_messages_exact", "kind": "proved",
+     "statement": "message-level exactness: any segmentation of the frames of a list of messages (unfragmented/fragmented, pings anywhere, optional final close) delivers exactly those messages in order"},
     {"id": "C18_W4_utf8", "theorem": "Iora.C18.W4_utf8", "kind": "proved",
      "statement": "isValidUtf8 accepts exactly Unicode Table 3-7 well-formed UTF-8"},
     {"id": "C18_W5", "theorem": "Iora.C18.W5_no_data_after_close", "kind": "proved",
-     "statement": "for every history of app sends and reads, no data frame is sent after a close frame (server)"},
+     "statement": "for every history of app sends, reads and re-entrant sends from callbacks, no data frame is sent after a close frame (server)"},
+    {"id": "C18_W5_locks", "theorem": "Iora.C18.W5_lock_discipline", "kind": "proved",
+     "statement": "the lock/flag skeleton extracted from the source satisfies the discipline the models assume (check+send one critical section; flag set before every close send; callbacks unlocked), both endpoints"},
+    {"id": "C18_W5_programs", "theorem": "Iora.C18.W5_programs_disciplined", "kind": "proved",
+     "statement": "every send-path function of the regenerated skeleton, compiled to lock/flag/send actions, is a disciplined program of the small-step model (decide)"},
+    {"id": "C18_W5_concurrent", "theorem": "Iora.C18.W5_concurrent", "kind": "proved",
+     "statement": "any number of threads making any sequence of calls of those programs under ANY schedule: no data frame is handed over after a close frame (small-step mutex/flag/wire model)"},
     {"id": "C18_W6c", "theorem": "Iora.C18.W6_server_buffer_bounded", "kind": "proved",
      "statement": "for every history and arbitrary bytes the session retains < 14 + max unparsed bytes"},
+    {"id": "C18_W6d", "theorem": "Iora.C18.W6_server_fragment_bounded", "kind": "proved",
+     "statement": "for every history and arbitrary bytes the fragment buffer holds at most max bytes (FC18a)"},
+    {"id": "C18_W6_upgrade", "theorem": "Iora.C18.W6_server_upgrade_boundary", "kind": "proved",
+     "statement": "bytes received with the upgrade request are handled exactly like a first read; the bounds hold for every continuation"},
     {"id": "C18_W3_client", "theorem": "Iora.C18.W3_client_segmentation_independent", "kind": "proved",
-     "statement": "client events are the same for any two segmentations of any valid stream"},
+     "statement": "client events are the same for any two segmentations of any valid stream, any callback behaviour"},
+    {"id": "C18_W3_client_upgrade", "theorem": "Iora.C18.W3_client_upgrade_boundary", "kind": "proved",
+     "statement": "client across the upgrade boundary: an accepted 101 response followed by any valid frame stream, cut anywhere (inside the response, at its end, inside a frame): one connect event, then the per-frame handler folded over the frames"},
     {"id": "C18_W4_client", "theorem": "Iora.C18.W4_client_reassembly", "kind": "proved",
      "statement": "client reassembly: pongs for pings, one in-order delivery, text only if UTF-8"},
+    {"id": "C18_W4_client_messages", "theorem": "Iora.C18.W4_client_messages_exact", "kind": "proved",
+     "statement": "client message-level exactness for every segmentation"},
     {"id": "C18_W5_client", "theorem": "Iora.C18.W5_client_no_data_after_close", "kind": "proved",
-     "statement": "client: for every history no data frame follows a close frame"},
+     "statement": "client: for every history (incl. the upgrade response and sends from callbacks) no data frame follows a close frame"},
     {"id": "C18_W6c_client", "theorem": "Iora.C18.W6_client_buffer_bounded", "kind": "proved",
-     "statement": "client: retained buffer < 14 + kMaxFramePayload for every history and arbitrary bytes"},
+     "statement": "client: retained buffer < 14 + max and fragment buffer <= max for every history and arbitrary bytes (FC18b)"},
+    {"id": "C18_W6_client_upgrade", "theorem": "Iora.C18.W6_client_upgrade_bounded", "kind": "proved",
+     "statement": "client waiting for the upgrade response retains at most kMaxUpgradeResponse bytes (FC18d); afterwards the frame bounds"},
     {"id": "C18_W6a", "theorem": "Iora.C18.W6_frame_bounds", "kind": "proved",
      "statement": "arbitrary bytes: consumed <= size, allocation <= available and <= max"},
     {"id": "C18_W6b", "theorem": "Iora.C18.W6_incomplete_short", "kind": "proved",
-     "statement": "an incomplete buffer is shorter than 14 + max (bounded buffering)"},
+     "statement": "an incomplete buffer is shorter than 14 + max, for arbitrary bytes (bounded buffering)"},
+    {"id": "C18_RSV", "theorem": "Iora.C18.W6_rsv_observation", "kind": "proved",
+     "statement": "observation: a first byte with an RSV bit yields an empty frame that is handled as real and is not extension-stable"},
 ]
 ANCHOR_FILES = ["include/iora/network/websocket_frame.hpp", "include/iora/network/websocket_server.hpp",
-                "include/iora/network/websocket_client.hpp"]
+                "include/iora/network/websocket_client.hpp", "include/iora/network/http_server.hpp"]
+VERIF = os.path.dirname(os.path.dirname(os.path.abspath(__file__)))
+DETSCHED = os.path.join(VERIF, "harness", "detsched", "detsched.cpp")
+LEAN_MODULES_ALL = ["IoraModel.Lemmas.WsFrame", "IoraModel.Lemmas.WsServer", "IoraModel.Lemmas.WsStream", "IoraModel.Lemmas.WsClient",
+                    "IoraModel.Lemmas.WsEndpoint", "IoraModel.Lemmas.WsUpgrade", "IoraModel.Model.WsClient", "IoraModel.Lemmas.Utf8", "IoraModel.Model.WsFrame",
+                    "IoraModel.Model.WsServer", "IoraModel.Model.WsSkel", "IoraModel.Model.WsConc", "IoraModel.Lemmas.WsConc", "IoraModel.Common.Framing"]
 
 CONTROL = (8, 9, 10)
 DATA = (0, 1, 2)
@@ -197,15 +232,48 @@ def gen_codec_cases(ctx, rng, scale):
                 s.insert(rng.below(len(s) + 1), rng.choice([0x80, 0xBF, 0xC0, 0xC1, 0xE0, 0xED, 0xF0, 0xF4, 0xF5, 0xFF]))
         s = bytes(s)
         cases.append({"cat": "utf8", "ops": ["utf8 %s" % hexs(s)], "expect": ["1" if py_utf8_ok(s) else "0"]})
+    # (g) makeClose boundary (FC18c): reason lengths around 123, UTF-8 sequences straddling the cut
+    for n in (0, 1, 122, 123, 124, 125, 126, 200):
+        for fill in (b"a", "\u00e9".encode(), "\u20ac".encode(), "\U0001f600".encode()):
+            for shift in (0, 1, 2, 3):
+                r = (b"x" * shift + fill * (n // len(fill) + 1))[:n + shift] if n else b""
+                cases.append({"cat": "mkclose", "ops": ["mkclose %d %s" % (rng.choice([1000, 1001, 3000, 4999]), hexs(r))], "reason": r})
+    cases.append({"cat": "mkclose", "ops": ["mkclose 1000 %s" % hexs(b"\x80" * 130)], "reason": b"\x80" * 130})
     return cases
 
 
-def gen_stream(rng, maxframe):
-    """A protocol-valid client->server frame stream + what the server must deliver for it."""
-    frames = []
-    expect = []      # ("T", bytes) | ("B", bytes) | ("PONG", bytes) | ("CLOSE1007",) | ("TOOBIG",) | ("CLOSE", code, reason)
+def gen_stream(rng, maxframe, close_mid=False, ep="srv"):
+    """A protocol-valid peer frame stream + what the endpoint must deliver for it.
+    Returns dict(frames, expect, ends_early): `expect` lists ("T"|"B", bytes) | ("PONG", bytes) | ("CLOSE1007",) | ("TOOBIG",) |
+    ("CLOSE", body) up to the frame that ends the session (a message over the limit; for the server also a CLOSE);
+    frames keep coming after it (`ends_early` = at least one frame follows the end) - nothing more may be delivered."""
+    st = {"frames": [], "expect": [], "ended": False, "ends_early": False}
+    frames, expect = st["frames"], st["expect"]
+
+    def push(fr):
+        if st["ended"]:
+            st["ends_early"] = True
+        frames.append(fr)
+
+    def ctl():
+        cp = rng.bytes(rng.choice([0, 1, 8, min(125, maxframe)]))   # a control payload above the limit is (rightly) tooLarge
+        cop = rng.choice([9, 10])
+        push(ws_ser(True, cop, True, rng.bytes(4), cp))
+        if cop == 9 and not st["ended"]:
+            expect.append(("PONG", cp))
+
+    def close(body):
+        push(ws_ser(True, 8, True, rng.bytes(4), body))
+        if not st["ended"]:
+            expect.append(("CLOSE", body))
+        if ep == "srv":          # the server erases the session; the client only changes state and keeps parsing
+            st["ended"] = True
+
     nmsg = rng.range(1, 5)
-    for _ in range(nmsg):
+    close_at = rng.below(nmsg) if close_mid else -1
+    for mi in range(nmsg):
+        if mi == close_at:
+            close((1000).to_bytes(2, "big") + b"mid")
         kind = rng.below(10)
         if kind < 4:
             pl = rand_utf8(rng, rng.range(0, 30))
@@ -213,7 +281,7 @@ def gen_stream(rng, maxframe):
         elif kind < 5:
             pl = rng.choice(UTF8_EDGE) + rand_utf8(rng, rng.range(0, 3))
             op = 1
-        elif kind < 9:
+        elif kind < 8:
             pl = rand_payload(rng, rng.choice([0, 1, 125, 126, 127, 300, rng.range(0, 200)]))
             op = 2
         else:
@@ -222,45 +290,43 @@ def gen_stream(rng, maxframe):
         nfrag = rng.choice([1, 1, 2, 3, 4])
         cuts = sorted(rng.below(len(pl) + 1) for _ in range(nfrag - 1))
         parts = [pl[a:b] for a, b in zip([0] + cuts, cuts + [len(pl)])]
-        toobig = False
         acc = 0
+        toobig = False
         for i, part in enumerate(parts):
-            # control frames may be injected between fragments
             if rng.chance(1, 4):
-                cp = rng.bytes(rng.choice([0, 1, 8, min(125, maxframe)]))   # a control payload above the limit is (rightly) tooLarge
-                cop = rng.choice([9, 10])
-                k = rng.bytes(4)
-                frames.append(ws_ser(True, cop, True, k, cp))
-                if cop == 9:
-                    expect.append(("PONG", cp))
+                ctl()
             masked = rng.chance(3, 4)
             k = rng.bytes(4) if masked else b"\0\0\0\0"
-            frames.append(ws_ser(i == len(parts) - 1, op if i == 0 else 0, masked, k, part))
+            push(ws_ser(i == len(parts) - 1, op if i == 0 else 0, masked, k, part))
             acc += len(part)
-            if acc > maxframe:
-                expect.append(("TOOBIG",))
+            if acc > maxframe and not toobig:
                 toobig = True
-                break
+                if not st["ended"]:
+                    expect.append(("TOOBIG",))
+                    st["ended"] = True      # both endpoints fail the connection; the generator keeps going
         if toobig:
-            # the real server keeps the oversize fragment buffer; what follows is implementation-defined for the monitor
-            return frames, expect, True
-        if op == 1:
-            expect.append(("T", pl) if py_utf8_ok(pl) else ("CLOSE1007",))
-        else:
-            expect.append(("B", pl))
+            continue
+        if not st["ended"]:
+            if op == 1:
+                expect.append(("T", pl) if py_utf8_ok(pl) else ("CLOSE1007",))
+            else:
+                expect.append(("B", pl))
+        if rng.chance(1, 5):
+            ctl()
     if rng.chance(1, 2):
         code = rng.choice([1000, 1001, 3000])
         reason = rand_utf8(rng, rng.range(0, 5))
-        body = rng.choice([b"", code.to_bytes(2, "big") + reason])
-        frames.append(ws_ser(True, 8, True, rng.bytes(4), body))
-        expect.append(("CLOSE", body))
-    return frames, expect, False
+        close(rng.choice([b"", code.to_bytes(2, "big") + reason]))
+    return {"frames": frames, "expect": expect, "ends_early": st["ends_early"]}
 
 
-def segmentations(rng, stream, quick):
+def segmentations(rng, stream, quick, few=False):
     n = len(stream)
     segs = [[stream]]
-    cuts = list(range(1, n)) if (n <= 40 or not quick) and n <= 400 else sorted(set(rng.below(max(n - 1, 1)) + 1 for _ in range(24)) | set(range(1, min(n, 16))))
+    if few:
+        cuts = sorted(set(rng.below(max(n - 1, 1)) + 1 for _ in range(6)))
+    else:
+        cuts = list(range(1, n)) if (n <= 40 or not quick) and n <= 400 else sorted(set(rng.below(max(n - 1, 1)) + 1 for _ in range(24)) | set(range(1, min(n, 16))))
     for c in cuts:
         if 0 < c < n:
             segs.append([stream[:c], stream[c:]])
@@ -269,33 +335,114 @@ def segmentations(rng, stream, quick):
         cs = sorted(set(rng.below(n + 1) for _ in range(k)))
         parts = [stream[a:b] for a, b in zip([0] + cs, cs + [n])]
         segs.append(parts)     # may contain empty reads
-    if n <= 120:
+    if n <= 120 and not few:
         segs.append([stream[i:i + 1] for i in range(n)])
     return segs
 
 
+def rand_send_item(rng, limit_hint=100):
+    k = rng.below(8)
+    if k < 3:
+        return "t:%s" % hexs(rand_utf8(rng, rng.range(0, 4)))
+    if k < 5:
+        return "b:%s" % hexs(rng.bytes(rng.range(0, 5)))
+    if k < 6:
+        return "p:%s" % hexs(rng.bytes(rng.choice([0, 2, 125, 126])))
+    return "c:%d:%s" % (rng.choice([1000, 1001, 4000]), hexs(rng.choice([b"", b"bye", b"r" * 130])))
+
+
+def rand_script(rng):
+    """what the application sends from inside onText / onBinary / onClose / onError"""
+    def one():
+        if rng.chance(1, 2):
+            return "-"
+        return ",".join(rand_send_item(rng) for _ in range(rng.range(1, 3)))
+    return "%s %s %s %s" % (one(), one(), one(), one())
+
+
+def app_op(rng, ep):
+    k = rng.below(6)
+    if k == 0:
+        return "%s sendText %s" % (ep, hexs(rand_utf8(rng, 3)))
+    if k == 1:
+        return "%s sendBinary %s" % (ep, hexs(rng.bytes(4)))
+    if k == 2:
+        return "%s sendPing %s" % (ep, hexs(rng.bytes(rng.choice([2, 0, 125, 126, 200]))))
+    if k == 3:
+        return "%s sendClose 1000 %s" % (ep, hexs(b"bye"))
+    if k == 4:
+        return "%s sendClose %d %s" % (ep, rng.choice([1001, 4000]), hexs(rng.choice([b"r" * 123, b"r" * 124, "€".encode() * 50, b""])))
+    return "%s sendText %s" % (ep, hexs(rand_utf8(rng, 1)))
+
+
+CRLF2 = b"\r\n\r\n"
+SAMPLE_KEY = b"dGhlIHNhbXBsZSBub25jZQ=="
+SAMPLE_ACCEPT = base64.b64encode(hashlib.sha1(SAMPLE_KEY + b"258EAFA5-E914-47DA-95CA-C5AB0DC85B11").digest())
+
+
+def upgrade_response(rng, kind="ok"):
+    """An HTTP upgrade response for the harness's fixed key; `kind` selects a well-formed or a defective one."""
+    acc = SAMPLE_ACCEPT
+    status = b"HTTP/1.1 101 Switching Protocols"
+    ws = rng.choice([b" ", b"", b"  ", b"\t", b" \t "])
+    ws2 = rng.choice([b"", b" ", b"\t"])
+    hdrs = [b"Upgrade: websocket", b"Connection: Upgrade"]
+    acc_line = b"Sec-WebSocket-Accept:" + ws + acc + ws2
+    if kind == "badstatus":
+        status = rng.choice([b"HTTP/1.1 200 OK", b"HTTP/1.0 101 Switching Protocols", b" HTTP/1.1 101 x", b"HTTP/1.1 404 Not Found"])
+    elif kind == "badaccept":
+        acc_line = b"Sec-WebSocket-Accept:" + ws + rng.choice([acc[:-1], acc + b"x", b"", acc.lower(), b"x" + acc])
+    elif kind == "noaccept":
+        acc_line = b"X-Other: 1"
+    elif kind == "lateaccept":
+        acc_line = b"X-Other: 2"
+    if rng.chance(1, 3):
+        hdrs.append(b"Sec-WebSocket-Protocol: chat")
+    hdrs.insert(rng.below(len(hdrs) + 1), acc_line)
+    out = status + b"\r\n" + b"\r\n".join(hdrs) + CRLF2
+    if kind == "lateaccept":
+        out += b"Sec-WebSocket-Accept: " + acc + CRLF2      # after the header section: must not count
+    return out
+
+
 def gen_server_cases(ctx, rng, scale, quick):
     cases = []
-    for sidx in range(50 * scale):
+    for sidx in range(44 * scale):
         maxframe = rng.choice([16777216, 16777216, 300, 64, 200])
-        frames, expect, unsure = gen_stream(rng, maxframe)
-        stream = b"".join(frames)
-        app = []
-        if rng.chance(1, 3):
-            app = [rng.choice(["srv sendText %s" % hexs(rand_utf8(rng, 3)), "srv sendBinary %s" % hexs(rng.bytes(4)),
-                               "srv sendPing %s" % hexs(rng.bytes(2)), "srv sendClose 1000 %s" % hexs(b"bye")]) for _ in range(rng.range(1, 4))]
-        for gi, segs in enumerate(segmentations(rng, stream, quick)):
-            ops = ["srv reset %d" % maxframe] + ["srv data %s" % hexs(s) for s in segs]
-            # application sends after the stream (same for every segmentation, so events stay comparable)
-            ops += app
-            cases.append({"cat": "server-stream", "ops": ops, "stream_id": sidx, "expect_msgs": expect, "unsure": unsure,
+        st = gen_stream(rng, maxframe, close_mid=(sidx % 9 == 8))
+        stream = b"".join(st["frames"])
+        script = rand_script(rng) if sidx % 3 == 1 else None
+        app = [app_op(rng, "srv") for _ in range(rng.range(1, 4))] if rng.chance(1, 3) else []
+        for gi, segs in enumerate(segmentations(rng, stream, quick, few=quick and len(stream) > 20000)):
+            ops = ["srv reset %d" % maxframe] + (["srv script " + script] if script else []) + ["srv data %s" % hexs(s) for s in segs]
+            ops += app    # application sends after the stream (same for every segmentation, so events stay comparable)
+            cases.append({"cat": "server-stream", "ops": ops, "stream_id": sidx, "expect_msgs": st["expect"], "ends_early": st["ends_early"],
                           "maxframe": maxframe, "stream_len": len(stream), "nseg": len(segs)})
+    # the REAL upgrade boundary: the first `c` bytes of the stream arrive in the same read as the upgrade request
+    # (HttpServer::handleIncomingData -> thread pool -> onUpgradeRequest -> 101 -> buffer drain -> onUpgradedData)
+    for sidx in range(14 * scale):
+        maxframe = rng.choice([16777216, 300, 64])
+        st = gen_stream(rng, maxframe)
+        stream = b"".join(st["frames"])
+        if CRLF2 in stream or len(stream) > 60000:
+            continue        # the HTTP request loop would look for a second pipelined request in the trailing bytes
+        script = rand_script(rng) if sidx % 3 == 1 else None
+        n = len(stream)
+        cuts = sorted(set([0, n, min(n, 1), min(n, 2), n // 2, max(n - 1, 0)] + [rng.below(n + 1) for _ in range(3)]))
+        for c in cuts:
+            ops = ["srv reset %d" % maxframe] + (["srv script " + script] if script else []) + ["srv upgrade %s" % hexs(stream[:c])]
+            rest = stream[c:]
+            if rest:
+                k = rng.below(len(rest) + 1)
+                ops += ["srv data %s" % hexs(x) for x in (rest[:k], rest[k:]) if x or rng.chance(1, 4)]
+            cases.append({"cat": "server-upgrade", "ops": ops, "stream_id": "u%d" % sidx, "expect_msgs": st["expect"], "ends_early": st["ends_early"],
+                          "maxframe": maxframe, "stream_len": n, "cut": c})
     # robustness: protocol-invalid / mutated streams through the server
-    for i in range(120 * scale):
+    for i in range(110 * scale):
         maxframe = rng.choice([16777216, 100, 64])
-        frames, _, _ = gen_stream(rng, maxframe)
-        w = bytearray(b"".join(frames))
-        k = rng.below(6)
+        st = gen_stream(rng, maxframe)
+        w = bytearray(b"".join(st["frames"]))
+        k = rng.below(7)
         if k == 0:
             w[0:0] = bytes([0x80 | rng.choice(CONTROL), rng.choice([126, 127, 254, 255])]) + rng.bytes(4)
         elif k == 1:
@@ -307,100 +454,255 @@ def gen_server_cases(ctx, rng, scale, quick):
                 w[rng.below(len(w))] ^= 1 << rng.below(8)
         elif k == 4:
             w[0:0] = bytes([rng.choice(CONTROL), 0])      # control frame without FIN
-        else:
+        elif k == 5:
             w = bytearray(rng.bytes(rng.range(1, 60)))
+        else:
+            # a message that never ends: non-final fragments for ever (the fragment buffer must stay bounded)
+            w = bytearray(ws_ser(False, rng.choice([1, 2]), True, rng.bytes(4), rng.bytes(rng.range(0, 8))))
+            for _ in range(rng.range(10, 30)):
+                w += ws_ser(False, 0, rng.chance(1, 2), rng.bytes(4), rng.bytes(rng.range(1, max(2, min(maxframe, 40)))))
         w = bytes(w)
         n = len(w)
         cs = sorted(set(rng.below(n + 1) for _ in range(rng.range(0, 4))))
         parts = [w[a:b] for a, b in zip([0] + cs, cs + [n])]
-        ops = ["srv reset %d" % maxframe] + ["srv data %s" % hexs(p) for p in parts]
+        ops = ["srv reset %d" % maxframe] + (["srv script " + rand_script(rng)] if i % 4 == 0 else []) + ["srv data %s" % hexs(p) for p in parts]
         # keep feeding: an endpoint that stalls on a protocol error would buffer this without bound
         ops += ["srv data %s" % hexs(rng.bytes(200)) for _ in range(3)]
         ops += ["srv sendText %s" % hexs(b"late")]
         cases.append({"cat": "server-robust", "ops": ops, "maxframe": maxframe})
-    # application sends racing the close handshake (single-threaded orders; the locked sections make these the atomic steps)
-    for i in range(60 * scale):
+    # application sends racing the close handshake (single-threaded orders; the locked sections make these the atomic steps),
+    # with RE-ENTRANT sends from inside the callbacks
+    for i in range(80 * scale):
         ops = ["srv reset 16777216"]
+        if i % 2 == 0:
+            ops.append("srv script " + rand_script(rng))
         for _ in range(rng.range(2, 8)):
-            k = rng.below(7)
-            if k == 0:
-                ops.append("srv sendText %s" % hexs(rand_utf8(rng, 4)))
-            elif k == 1:
-                ops.append("srv sendBinary %s" % hexs(rng.bytes(3)))
-            elif k == 2:
-                ops.append("srv sendClose %d %s" % (rng.choice([1000, 1001]), hexs(b"x")))
+            k = rng.below(8)
+            if k <= 2:
+                ops.append(app_op(rng, "srv"))
             elif k == 3:
                 ops.append("srv data %s" % hexs(ws_ser(True, 8, True, rng.bytes(4), (1000).to_bytes(2, "big"))))
             elif k == 4:
-                ops.append("srv data %s" % hexs(ws_ser(True, 1, True, rng.bytes(4), b"hi")))
+                ops.append("srv data %s" % hexs(ws_ser(True, rng.choice([1, 2]), True, rng.bytes(4), b"hi")))
             elif k == 5:
-                ops.append("srv sendPing %s" % hexs(rng.bytes(2)))
+                ops.append("srv data %s" % hexs(ws_ser(True, 1, True, rng.bytes(4), b"\xff")))      # invalid UTF-8 -> close 1007
+            elif k == 6:
+                ops.append("srv data %s" % hexs(ws_ser(True, rng.choice([3, 7, 11]), True, rng.bytes(4), b"")))   # reserved opcode -> 1002 + onError
             else:
                 ops.append("srv data %s" % hexs(ws_ser(True, 9, True, rng.bytes(4), b"p")))
         cases.append({"cat": "server-close-race", "ops": ops, "maxframe": 16777216})
     return cases
 
 
-
-
 def gen_client_cases(ctx, rng, scale, quick):
-    """Server->client streams through the real WebSocketClient::handleData (post-upgrade), every segmentation; app sends around."""
+    """Server->client streams through the real WebSocketClient::handleData, every segmentation; app sends around."""
     cases = []
-    for sidx in range(40 * scale):
-        frames, expect, unsure = gen_stream(rng, 16777216)
-        stream = b"".join(frames)
-        app = []
-        if rng.chance(1, 3):
-            app = [rng.choice(["cli sendText %s" % hexs(rand_utf8(rng, 3)), "cli sendBinary %s" % hexs(rng.bytes(4)),
-                               "cli sendPing %s" % hexs(rng.bytes(2)), "cli sendClose 1000 %s" % hexs(b"bye")]) for _ in range(rng.range(1, 4))]
-        for segs in segmentations(rng, stream, quick):
-            ops = ["cli reset"] + ["cli data %s" % hexs(x) for x in segs] + app
-            cases.append({"cat": "client-stream", "ops": ops, "stream_id": "c%d" % sidx, "expect_msgs": expect, "unsure": unsure,
-                          "stream_len": len(stream), "nseg": len(segs)})
-    for i in range(80 * scale):
-        frames, _, _ = gen_stream(rng, 16777216)
-        w = bytearray(b"".join(frames))
-        k = rng.below(6)
+    for sidx in range(34 * scale):
+        maxframe = rng.choice([16777216, 16777216, 300, 64])
+        st = gen_stream(rng, maxframe, close_mid=(sidx % 9 == 8), ep="cli")
+        stream = b"".join(st["frames"])
+        script = rand_script(rng) if sidx % 3 == 1 else None
+        app = [app_op(rng, "cli") for _ in range(rng.range(1, 4))] if rng.chance(1, 3) else []
+        for segs in segmentations(rng, stream, quick, few=quick and len(stream) > 20000):
+            ops = ["cli reset %d" % maxframe] + (["cli script " + script] if script else []) + ["cli data %s" % hexs(x) for x in segs] + app
+            cases.append({"cat": "client-stream", "ops": ops, "stream_id": "c%d" % sidx, "expect_msgs": st["expect"], "ends_early": st["ends_early"],
+                          "maxframe": maxframe, "stream_len": len(stream), "nseg": len(segs)})
+    # the upgrade boundary: the 101 response and the first frames in any segmentation (cuts inside the response, at its end, inside frames)
+    for sidx in range(14 * scale):
+        st = gen_stream(rng, 16777216)
+        stream = b"".join(st["frames"])
+        if len(stream) > 3000:
+            stream = stream[:0]
+            st = {"frames": [], "expect": [], "ends_early": False}
+        resp = upgrade_response(rng)
+        whole = resp + stream
+        script = rand_script(rng) if sidx % 3 == 1 else None
+        n = len(whole)
+        cutsets = [[], [len(resp)], [len(resp) - 1], [len(resp) + 1], [len(resp) - 4], [1], [rng.below(len(resp))], [len(resp) - 2, len(resp) + 2]]
+        cutsets += [sorted(set(rng.below(n + 1) for _ in range(rng.range(1, 4)))) for _ in range(3)]
+        for cs in cutsets:
+            cs = [c for c in cs if 0 <= c <= n]
+            parts = [whole[a:b] for a, b in zip([0] + cs, cs + [n])]
+            ops = ["cli hs"] + (["cli script " + script] if script else []) + ["cli data %s" % hexs(x) for x in parts]
+            cases.append({"cat": "client-upgrade", "ops": ops, "stream_id": "h%d" % sidx, "expect_msgs": st["expect"], "ends_early": st["ends_early"],
+                          "maxframe": 16777216})
+    for i in range(40 * scale):
+        kind = rng.choice(["badstatus", "badaccept", "noaccept", "lateaccept", "huge", "ok"])
+        if kind == "huge":
+            chunks = [b"HTTP/1.1 101 x\r\nX: " + b"a" * 30000] + [b"b" * 30000] * 3 + [CRLF2]
+        else:
+            resp = upgrade_response(rng, kind) + ws_ser(True, 1, False, b"", b"hi")
+            cs = sorted(set(rng.below(len(resp) + 1) for _ in range(rng.range(0, 3))))
+            chunks = [resp[a:b] for a, b in zip([0] + cs, cs + [len(resp)])]
+        ops = ["cli hs"] + ["cli data %s" % hexs(x) for x in chunks] + ["cli sendText %s" % hexs(b"x")]
+        cases.append({"cat": "client-upgrade-robust", "ops": ops, "maxframe": 16777216, "kind": kind})
+    for i in range(70 * scale):
+        maxframe = rng.choice([16777216, 100, 64])
+        st = gen_stream(rng, maxframe)
+        w = bytearray(b"".join(st["frames"]))
+        k = rng.below(7)
         if k == 0:
             w[0:0] = bytes([0x80 | rng.choice(CONTROL), rng.choice([126, 127, 254, 255])]) + rng.bytes(4)
         elif k == 1:
             w[0:0] = bytes([0x82, 127]) + (2 ** 64 - rng.range(1, 20)).to_bytes(8, "big")
         elif k == 2:
-            w[0:0] = bytes([0x82, 127]) + (16777216 + rng.range(1, 3)).to_bytes(8, "big") + rng.bytes(30)
+            w[0:0] = bytes([0x82, 127]) + (maxframe + rng.range(1, 3)).to_bytes(8, "big") + rng.bytes(30)
         elif k == 3 and w:
             for _ in range(3):
                 w[rng.below(len(w))] ^= 1 << rng.below(8)
         elif k == 4:
             w[0:0] = bytes([rng.choice(CONTROL), 0])
-        else:
+        elif k == 5:
             w = bytearray(rng.bytes(rng.range(1, 60)))
+        else:
+            w = bytearray(ws_ser(False, rng.choice([1, 2]), False, b"", rng.bytes(rng.range(0, 8))))
+            for _ in range(rng.range(10, 30)):
+                w += ws_ser(False, 0, False, b"", rng.bytes(rng.range(1, max(2, min(maxframe, 40)))))
         w = bytes(w)
         n = len(w)
         cs = sorted(set(rng.below(n + 1) for _ in range(rng.range(0, 4))))
         parts = [w[a:b] for a, b in zip([0] + cs, cs + [n])]
-        ops = ["cli reset"] + ["cli data %s" % hexs(x) for x in parts]
+        ops = ["cli reset %d" % maxframe] + (["cli script " + rand_script(rng)] if i % 4 == 0 else []) + ["cli data %s" % hexs(x) for x in parts]
         ops += ["cli data %s" % hexs(rng.bytes(200)) for _ in range(3)] + ["cli sendText %s" % hexs(b"late")]
-        cases.append({"cat": "client-robust", "ops": ops})
-    for i in range(60 * scale):
+        cases.append({"cat": "client-robust", "ops": ops, "maxframe": maxframe})
+    for i in range(70 * scale):
         ops = ["cli reset"]
+        if i % 2 == 0:
+            ops.append("cli script " + rand_script(rng))
         for _ in range(rng.range(2, 8)):
-            k = rng.below(7)
-            if k == 0:
-                ops.append("cli sendText %s" % hexs(rand_utf8(rng, 4)))
-            elif k == 1:
-                ops.append("cli sendBinary %s" % hexs(rng.bytes(3)))
-            elif k == 2:
-                ops.append("cli sendClose %d %s" % (rng.choice([1000, 1001]), hexs(b"x")))
+            k = rng.below(8)
+            if k <= 2:
+                ops.append(app_op(rng, "cli"))
             elif k == 3:
                 ops.append("cli data %s" % hexs(ws_ser(True, 8, False, b"", (1000).to_bytes(2, "big"))))
             elif k == 4:
-                ops.append("cli data %s" % hexs(ws_ser(True, 1, False, b"", b"hi")))
+                ops.append("cli data %s" % hexs(ws_ser(True, rng.choice([1, 2]), False, b"", b"hi")))
             elif k == 5:
-                ops.append("cli sendPing %s" % hexs(rng.bytes(2)))
+                ops.append("cli data %s" % hexs(ws_ser(True, 1, False, b"", b"\xff")))
+            elif k == 6:
+                ops.append("cli data %s" % hexs(bytes([0x80 | 9, 126, 0, 126]) + b"p" * 126))      # oversize ping -> protocol failure, onError
             else:
                 ops.append("cli data %s" % hexs(ws_ser(True, 9, False, b"", b"p")))
-        cases.append({"cat": "client-close-race", "ops": ops})
+        cases.append({"cat": "client-close-race", "ops": ops, "maxframe": 16777216})
     return cases
+
+
+# ------------------------------------------------------------------ two threads under DetSched (harness only + model interleavings)
+RACE_PROGRAMS = {
+    "srv": ["t:6869/c:1000:-", "b:0102/d:CLOSE", "t:6869,b:01/c:1001:6279", "t:61/c:1000:-/d:CLOSE", "p:70/c:1000:-", "t:61/d:TEXTBAD",
+            "c:1000:-/d:CLOSE", "t:61,t:62/d:CLOSE"],
+    "cli": ["t:6869/c:1000:-", "b:0102/d:CLOSE", "t:6869,b:01/c:1001:6279", "t:61/c:1000:-/d:CLOSE", "p:70/c:1000:-", "t:61/d:TEXTBAD",
+            "c:1000:-/d:CLOSE"],
+}
+
+
+def race_program(ep, prog):
+    masked = ep == "srv"
+    key = b"\1\2\3\4" if masked else b""
+    close = ws_ser(True, 8, masked, key, (1000).to_bytes(2, "big"))
+    bad = ws_ser(True, 1, masked, key, b"\xff")
+    return prog.replace("d:CLOSE", "d:" + hexs(close)).replace("d:TEXTBAD", "d:" + hexs(bad))
+
+
+def item_to_op(ep, it):
+    p = it.split(":")
+    if p[0] == "t":
+        return "%s sendText %s" % (ep, p[1])
+    if p[0] == "b":
+        return "%s sendBinary %s" % (ep, p[1])
+    if p[0] == "p":
+        return "%s sendPing %s" % (ep, p[1])
+    if p[0] == "c":
+        return "%s sendClose %s %s" % (ep, p[1], p[2])
+    return "%s data %s" % (ep, p[1])
+
+
+def interleavings(threads):
+    """all merges of the threads' op lists that keep each thread's order"""
+    if all(not t for t in threads):
+        return [[]]
+    out = []
+    for i, t in enumerate(threads):
+        if t:
+            rest = [list(x) for x in threads]
+            rest[i] = rest[i][1:]
+            out += [[t[0]] + tail for tail in interleavings(rest)]
+    return out
+
+
+def sends_only(evs):
+    return [e for e in evs if e.startswith("S:")]
+
+
+def run_races(ctx, hb, quick):
+    """Each program = 2-3 application threads (sends, and reads fed by an 'I/O thread') against one real session under DetSched.
+    Property monitor: W5 on the wire order of every schedule. Tie to the model: the frames on the wire of every schedule
+    must be the frames of SOME interleaving of the model's atomic steps (the locked sections)."""
+    n_sched = 0
+    n_out = 0
+    lines = []
+    meta = []
+    for ep, progs in RACE_PROGRAMS.items():
+        for p in progs:
+            prog = race_program(ep, p)
+            nthreads = prog.count("/") + 1
+            how = "explore %d" % (1200 if quick else 60000) if nthreads == 2 else "random %d %d" % (ctx.seed, 250 if quick else 8000)
+            lines.append("%s race %s %s" % (ep, prog, how))
+            meta.append((ep, prog))
+    out, rc, err = ctx.run_lines([hb], lines, timeout=900)
+    out = out + ["crash:%s" % rc] * (len(lines) - len(out))
+    # what the model allows: the wire of every interleaving of the atomic steps
+    mlines = []
+    spans = []
+    for ep, prog in meta:
+        threads = [[item_to_op(ep, it) for it in th.split(",")] for th in prog.split("/")]
+        ils = interleavings(threads)
+        a = len(mlines)
+        for il in ils:
+            mlines += ["%s reset%s" % (ep, " 16777216" if ep == "srv" else "")] + il
+        spans.append((a, len(mlines), [len(il) + 1 for il in ils]))
+    mout, mrc, merr = ctx.run_lines(ctx.model_argv("ws"), mlines, timeout=300)
+    for (ep, prog), line, (a, b, lens) in zip(meta, out, spans):
+        allowed = set()
+        pos = a
+        for ln in lens:
+            allowed.add(tuple(sends_only(events_of(mout[pos:pos + ln]))))
+            pos += ln
+        ctx.count_case("race " + ep + prog)
+        if not line.startswith("race "):
+            ctx.violation("property", "W6: the race harness died or threw on `%s race %s`: %s" % (ep, prog, line[:120]),
+                          {"ops": ["%s race %s explore 200" % (ep, prog)], "category": "race", "stderr": err[-1500:]}, found_input=True)
+            continue
+        toks = line.split()
+        n_sched += int(toks[1].split("=")[1])
+        for o in toks[4:]:
+            status, choices, evs = o.split("@", 2)
+            n_out += 1
+            evl = [] if evs == "-" else evs.split(";")
+            fails = []
+            if status != "ok":
+                fails.append("W5(concurrent): schedule ends in %s" % status)
+            seen_close = False
+            for e in evl:
+                so = sent_opcode(e)
+                if so == 8:
+                    seen_close = True
+                elif so in DATA and seen_close:
+                    fails.append("W5: data frame sent after a close frame under a concurrent schedule: %s" % e[:40])
+            if not fails and tuple(sends_only(evl)) not in allowed:
+                ctx.violation("correspondence", "a concurrent schedule puts frames on the wire that no interleaving of the model's atomic steps produces: %s (allowed: %s)"
+                              % (sends_only(evl), sorted(allowed)[:4]),
+                              {"broken": {"correspondence": "race linearisation (harness/c18_ws.cpp + detsched vs Model/WsServer.lean, WsClient.lean)",
+                                          "detail": "program %s, schedule %s" % (prog, choices)},
+                               "ops": ["%s race %s replay %s" % (ep, prog, choices)]}, found_input=False)
+            if fails:
+                ctx.violation("property", fails[0] + " [program %s]" % prog,
+                              {"ops": ["%s race %s replay %s" % (ep, prog, choices)], "observed": evl, "failures": fails, "category": "race",
+                               "schedule": choices}, found_input=True)
+    ctx.extra["race_schedules_run"] = n_sched
+    ctx.extra["race_distinct_outcomes"] = n_out
+    return n_sched
+
 
 # ------------------------------------------------------------------ property monitors (implementation output only)
 def events_of(lines):
@@ -415,13 +717,76 @@ def events_of(lines):
 
 
 def sent_opcode(ev):
+    """opcode of a frame-send event (server form S:<wire hex>, client form S:<op>:<fin>:<payload>); -1 = a send that is not one
+    decodable frame; None = not a send"""
     if ev.startswith("S:"):
         parts = ev.split(":")
         if len(parts) == 4:            # client form S:<op>:<fin>:<payload>
             return int(parts[1]) if parts[1].isdigit() else -1
-        if len(ev) >= 4:
-            return int(ev[2:4], 16) & 15
+        if len(parts) == 2 and len(ev) >= 4:
+            try:
+                return int(ev[2:4], 16) & 15
+            except ValueError:
+                return -1
+        return -1
     return None
+
+
+def ref_parse_one(w):
+    """reference decoder for ONE unmasked server frame: (fin, op, payload) or None if `w` is not exactly one acceptable frame"""
+    if len(w) < 2 or (w[0] & 0x70) or (w[1] & 0x80):
+        return None
+    fin, op, l7 = w[0] >> 7, w[0] & 15, w[1] & 127
+    pos = 2
+    if op in CONTROL and (l7 > 125 or not fin):
+        return None
+    if l7 == 126:
+        if len(w) < 4:
+            return None
+        n = int.from_bytes(w[2:4], "big")
+        pos = 4
+    elif l7 == 127:
+        if len(w) < 10:
+            return None
+        n = int.from_bytes(w[2:10], "big")
+        pos = 10
+    else:
+        n = l7
+    if len(w) != pos + n:
+        return None
+    return fin, op, w[pos:]
+
+
+def ref_close_reason(r):
+    """what makeClose may keep of a reason: everything up to 123 bytes, else cut to <= 123 on a UTF-8 character boundary"""
+    if len(r) <= 123:
+        return r
+    n = 123
+    while n > 0 and (r[n] & 0xC0) == 0x80:
+        n -= 1
+    return r[:n]
+
+
+def delivered(evs, ep):
+    got = []
+    for e in evs:
+        if e.startswith("T:"):
+            got.append(("T", unhex(e[2:])))
+        elif e.startswith("B:"):
+            got.append(("B", unhex(e[2:])))
+        elif e.startswith("S:") and ep == "cli":
+            pr = e.split(":")
+            if len(pr) == 4 and pr[1] == "10":
+                got.append(("PONG", unhex(pr[3])))
+            elif len(pr) == 4 and pr[1] == "8" and unhex(pr[3])[:2] == (1007).to_bytes(2, "big"):
+                got.append(("CLOSE1007",))
+        elif e.startswith("S:") and ep == "srv":
+            w = unhex(e[2:])
+            if w and w[0] & 15 == 10:
+                got.append(("PONG", w[2:]))
+            elif w and w[0] & 15 == 8 and w[2:4] == (1007).to_bytes(2, "big"):
+                got.append(("CLOSE1007",))
+    return got
 
 
 def monitor_case(c, impl):
@@ -436,6 +801,19 @@ def monitor_case(c, impl):
             if l != e:
                 tag = {"roundtrip": "W1", "ser": "W1", "prefix": "W2", "utf8": "W4(utf8)", "control-error": "W6"}[cat]
                 bad.append("%s: %s -> got %s, reference says %s" % (tag, op[:100], l[:100], e[:100]))
+    if cat == "mkclose":
+        for op, l in zip(c["ops"], impl):
+            try:
+                w = unhex(l)
+            except Exception:
+                continue
+            f = ref_parse_one(w)
+            code = int(op.split()[1])
+            want = (code & 0xFFFF).to_bytes(2, "big") + ref_close_reason(c["reason"])
+            if f is None:
+                bad.append("W1: makeClose serialises a frame the parser rejects (payload %d bytes): %s" % (len(w) - 2, op[:60]))
+            elif f[1] != 8 or f[2] != want:
+                bad.append("W1: makeClose payload is not code + reason (cut to 123 on a character boundary): %s -> %s" % (op[:60], l[:80]))
     if cat in ("mutated", "boundary"):
         for op, l in zip(c["ops"], impl):
             t = l.split()
@@ -448,7 +826,8 @@ def monitor_case(c, impl):
             elif t and t[0] not in ("incomplete", "protocolError", "tooLarge"):
                 if not (l.startswith("throw") or l.startswith("crash:")):
                     bad.append("W6: unexpected parse outcome %s" % l[:60])
-    if cat.startswith("server") or cat.startswith("client"):
+    if cat.startswith("server") or cat.startswith("client") or cat == "corpus":
+        ep = "cli" if (cat.startswith("client") or any(o.startswith("cli ") for o in c["ops"])) else "srv"
         evs = events_of(impl)
         seen_close = False
         for e in evs:
@@ -457,48 +836,30 @@ def monitor_case(c, impl):
                 seen_close = True
             elif so in DATA and seen_close:
                 bad.append("W5: data frame sent after a close frame: %s" % e[:40])
-        for e in evs:
-            if e.startswith("S:undecodable"):
-                bad.append("W1: the client sent bytes that do not parse as one masked frame: %s" % e[:60])
+            if so == -1:
+                bad.append("W1: the endpoint sent bytes that do not parse as one frame: %s" % e[:60])
+            elif so is not None and ep == "srv" and ref_parse_one(unhex(e[2:])) is None:
+                bad.append("W1: the server sent a frame its own parser (and any conforming peer) rejects: %s" % e[:40])
         mf = c.get("maxframe", 16777216)
         for l in impl:
             if "buf=" in l:
                 b = int(l.split("buf=")[1].split()[0])
-                if b > mf + 13:
-                    bad.append("W6: retained buffer %d exceeds maxFrameSize+13 (%d)" % (b, mf + 13))
-    if cat == "client-stream" and not c.get("unsure"):
-        evs = events_of(impl)
-        got = []
-        for e in evs:
-            if e.startswith("T:"):
-                got.append(("T", unhex(e[2:])))
-            elif e.startswith("B:"):
-                got.append(("B", unhex(e[2:])))
-            elif e.startswith("S:"):
-                pr = e.split(":")
-                if len(pr) == 4 and pr[1] == "10":
-                    got.append(("PONG", unhex(pr[3])))
-                elif len(pr) == 4 and pr[1] == "8" and unhex(pr[3])[:2] == (1007).to_bytes(2, "big"):
-                    got.append(("CLOSE1007",))
+                lim = 65536 if "upgraded=0" in l else mf + 13
+                if b > lim:
+                    bad.append("W6: retained buffer %d exceeds the bound %d (%s)" % (b, lim, "64 KiB while the upgrade response is pending" if "upgraded=0" in l else "maxFrameSize+13"))
+            if "frag=" in l:
+                fr = int(l.split("frag=")[1].split()[0])
+                if fr > mf:
+                    bad.append("W6: fragment buffer holds %d bytes, limit %d: reassembly buffers without bound" % (fr, mf))
+    if cat in ("client-stream", "server-stream", "server-upgrade", "client-upgrade") and "expect_msgs" in c:
+        ep = "cli" if cat.startswith("client") else "srv"
+        got = delivered(events_of(impl), ep)
         want = [e for e in c["expect_msgs"] if e[0] in ("T", "B", "PONG", "CLOSE1007")]
-        if got != want:
-            bad.append("W3/W4: client delivered messages differ from the messages encoded: got %s want %s" % (str(got)[:200], str(want)[:200]))
-    if cat == "server-stream" and not c.get("unsure"):
-        evs = events_of(impl)
-        got = []
-        for e in evs:
-            if e.startswith("T:"):
-                got.append(("T", unhex(e[2:])))
-            elif e.startswith("B:"):
-                got.append(("B", unhex(e[2:])))
-            elif e.startswith("S:"):
-                w = unhex(e[2:])
-                if w[0] & 15 == 10:
-                    got.append(("PONG", w[2:]))
-                elif w[0] & 15 == 8 and w[2:4] == (1007).to_bytes(2, "big"):
-                    got.append(("CLOSE1007",))
-        want = [e for e in c["expect_msgs"] if e[0] in ("T", "B", "PONG", "CLOSE1007")]
-        # sends made by the appended application ops are not part of `want`; they are never pongs/1007
+        if c.get("ends_early") and ep == "srv":
+            # frames that follow the end of the session in the same read may still be answered (pong): only DELIVERIES are fixed
+            got = [g for g in got if g[0] in ("T", "B")]
+            want = [g for g in want if g[0] in ("T", "B")]
+        # sends made by scripts / appended application ops are never pongs or 1007 closes
         if got != want:
             bad.append("W3/W4: delivered messages differ from the messages encoded: got %s want %s" % (str(got)[:200], str(want)[:200]))
     return bad
@@ -509,12 +870,33 @@ def replay(ctx):
     obj = json.load(open(ctx.replay))
     ops = obj.get("ops") or []
     ctx.translate(["ws"])
-    ctx.lake_build(MODULES + ["iora_model"])
-    hb = ctx.build_harness("harness/c18_ws.cpp", sanitize=True)
+    ctx.lake_build(MODULES)
+    hb = build_harness(ctx)
     if not hb or not ops:
         print("replay: nothing to run (kind=%s)" % obj.get("kind"))
         return 1 if ctx.violations else 0
-    c = {"cat": obj.get("category", "corpus"), "ops": ops, "unsure": True}
+    if any(" race " in o for o in ops):
+        out, rc, err = ctx.run_lines([hb], ops, timeout=300)
+        still = False
+        for o, l in zip(ops, out):
+            print("op    %s\n impl  %s" % (o[:200], l[:300]))
+            for part in l.split()[4:]:
+                status, choices, evs = part.split("@", 2)
+                seen = False
+                for e in ([] if evs == "-" else evs.split(";")):
+                    so = sent_opcode(e)
+                    if so == 8:
+                        seen = True
+                    elif so in DATA and seen:
+                        still = True
+                        print("PROPERTY FAILS: W5: data frame after close frame: %s" % e[:60])
+                if status != "ok":
+                    still = True
+        print("replay: %s" % ("still failing" if still else "no longer failing"))
+        return 1 if still else 0
+    c = {"cat": obj.get("category", "corpus"), "ops": ops, "maxframe": obj.get("maxframe", 16777216)}
+    if "reason" in obj:
+        c["reason"] = unhex(obj["reason"]) if isinstance(obj["reason"], str) else obj["reason"]
     (c, impl, model), = ctx.lockstep("ws", hb, [c])
     for o, a, b in zip(ops, impl, model):
         print("op    %s\n impl  %s\n model %s" % (o[:200], a[:200], b[:200]))
@@ -528,6 +910,33 @@ def replay(ctx):
     return 1 if still else 0
 
 
+def build_harness(ctx):
+    """DetSched is compiled on a second core while the (much larger) harness translation unit compiles."""
+    obj = os.path.join(ctx.work, "detsched.o")
+    res = {}
+
+    def side():
+        res["rc"], res["out"] = ctx.sh(["g++", "-std=c++17", "-O1", "-g1", "-w", "-I", os.path.join(VERIF, "harness"),
+                                        "-fsanitize=address,undefined", "-fno-sanitize-recover=all", "-fno-omit-frame-pointer",
+                                        "-c", DETSCHED, "-o", obj], timeout=900)
+    th = threading.Thread(target=side)
+    th.start()
+    # compile only (-c) first, then link with the DetSched object
+    hobj = ctx.build_harness("harness/c18_ws.cpp", name="c18_ws.o", sanitize=True, flags=["-g1", "-c"])
+    th.join()
+    if not hobj:
+        return None
+    if res.get("rc") != 0:
+        ctx.violation("harness-build", "harness/detsched/detsched.cpp does not compile: %s" % res.get("out", "")[-300:], {})
+        return None
+    out = os.path.join(ctx.work, "c18_ws")
+    rc, o = ctx.sh(["g++", "-fsanitize=address,undefined", "-fno-sanitize-recover=all", hobj, obj, "-o", out, "-lssl", "-lcrypto", "-lpthread", "-ldl"], timeout=600)
+    if rc != 0:
+        ctx.violation("harness-build", "harness link failed: %s" % o[-400:], {"broken": {"correspondence": "harness/c18_ws.cpp", "detail": o[-1500:]}})
+        return None
+    return out
+
+
 def run(ctx: Ctx):
     if ctx.replay:
         return replay(ctx)
@@ -535,14 +944,19 @@ def run(ctx: Ctx):
     scale = 1 if quick else 20
     rng = ctx.rng
     ok_tr = ctx.translate(["ws"])
-    ok_build = ctx.lake_build(MODULES + ["iora_model"])
+    # the harness (g++, ~30 s) is built while Lean checks the proofs
+    hres = {}
+    hth = threading.Thread(target=lambda: hres.update(hb=build_harness(ctx)))
+    hth.start()
+    ok_build = ctx.lake_build(MODULES)
     if ok_build:
         ctx.audit(MODULES, OBLIGATIONS)
         if not quick:
-            ctx.leanchecker(MODULES + ["IoraModel.Lemmas.WsFrame", "IoraModel.Lemmas.WsServer", "IoraModel.Lemmas.WsStream", "IoraModel.Lemmas.WsClient", "IoraModel.Model.WsClient", "IoraModel.Lemmas.Utf8", "IoraModel.Model.WsFrame", "IoraModel.Model.WsServer", "IoraModel.Common.Framing"])
+            ctx.leanchecker(MODULES + LEAN_MODULES_ALL)
     else:
         ctx.cov["obligations"] = len(OBLIGATIONS)
-    hb = ctx.build_harness("harness/c18_ws.cpp", sanitize=True)
+    hth.join()
+    hb = hres.get("hb")
     dist = {}
     if hb:
         corpus = load_corpus()
@@ -554,11 +968,11 @@ def run(ctx: Ctx):
         for c, impl, model in res:
             dist[c["cat"]] = dist.get(c["cat"], 0) + 1
             ctx.count_case("\n".join(c["ops"]), nontrivial=any(not l.startswith("incomplete") for l in impl))
-            if c["cat"] in ("roundtrip", "server-stream", "boundary", "server-robust") and len(ctx.cov["samples"]) < 6 and ctx.rng.chance(1, 50):
+            if c["cat"] in ("roundtrip", "server-stream", "boundary", "server-robust", "client-upgrade", "server-upgrade") and len(ctx.cov["samples"]) < 6 and ctx.rng.chance(1, 50):
                 ctx.sample({"cat": c["cat"], "ops": [o[:160] for o in c["ops"][:6]], "impl": [l[:160] for l in impl[:6]]})
             fails = monitor_case(c, impl)
             mism = [(i, a, b) for i, (a, b) in enumerate(zip(impl, model)) if a != b]
-            if c["cat"] in ("server-stream", "client-stream"):
+            if c["cat"] in ("server-stream", "client-stream", "server-upgrade", "client-upgrade"):
                 by_stream.setdefault(c["stream_id"], []).append((c, impl))
             if fails:
                 report_property(ctx, hb, c, impl, model, fails)
@@ -568,27 +982,46 @@ def run(ctx: Ctx):
                     i, a, b = mism[0]
                     ctx.violation("correspondence", "model and implementation disagree (no property monitor fails on this case): op `%s` impl=`%s` model=`%s`"
                                   % (c["ops"][i][:120], a[:120], b[:120]),
-                                  {"broken": {"correspondence": "ws lockstep (harness/c18_ws.cpp vs Model/WsFrame.lean, Model/WsServer.lean)",
+                                  {"broken": {"correspondence": "ws lockstep (harness/c18_ws.cpp vs Model/WsFrame.lean, Model/WsServer.lean, Model/WsClient.lean)",
                                               "detail": "first differing op index %d" % i},
                                    "ops": c["ops"], "observed": impl, "expected_by_model": model}, found_input=False)
-        # W3: every segmentation of one stream must give the same concatenated events (implementation only)
+        # W3: every segmentation of one stream must give the same concatenated events (implementation only). Where the stream itself
+        # ends the server session before its last frame only the DELIVERIES are segmentation independent (theorem W3_server_msgs).
         nseg = 0
         for sid, lst in by_stream.items():
-            base = events_of(lst[0][1])
+            c0 = lst[0][0]
+            ep = "cli" if c0["cat"].startswith("client") else "srv"
+
+            def view(c, impl):
+                evs = events_of(impl)
+                evs = [e for e in evs if e not in ("O", "H101")]      # the upgrade ops add the connect/101 events
+                if c0.get("ends_early") and ep == "srv":
+                    return [e for e in evs if e[:2] in ("T:", "B:")]
+                return evs
+            base = view(*lst[0])
             for c, impl in lst[1:]:
                 nseg += 1
-                if events_of(impl) != base:
-                    report_property(ctx, hb, c, impl, None, ["W3: events depend on the segmentation: whole=%s cut=%s" % (str(base)[:200], str(events_of(impl))[:200])],
+                if view(c, impl) != base:
+                    report_property(ctx, hb, c, impl, None, ["W3: events depend on the segmentation: whole=%s cut=%s" % (str(base)[:200], str(view(c, impl))[:200])],
                                     extra={"whole_ops": lst[0][0]["ops"]})
                     break
         ctx.extra["segmentations_compared"] = nseg
+        try:
+            run_races(ctx, hb, quick)
+        except Exception as e:     # a harness that cannot run the races is a broken tie, not a pass
+            ctx.violation("correspondence", "race driver failed: %s" % str(e)[:300], {"broken": {"correspondence": "race runs", "detail": str(e)}})
     ctx.extra["input_distribution"] = dist
     ctx.extra["repo_tree_sha"] = ctx.repo_tree_sha(ANCHOR_FILES)
-    ctx.extra["not_proved"] = ["client: the HTTP upgrade handshake part of handleData (before _upgradeComplete) is not modelled; post-upgrade data path is",
-                               "W5 under true concurrency: the theorem is over sequences of the _wsMutex critical sections (sendClose sets the flag inside and sends outside the lock; modelled as one step, see assumptions)"]
-    ctx.assumptions += ["single I/O thread per session (the server's per-session state is only touched under _wsMutex; concurrent interleavings of application sends are modelled as sequences of the locked sections)",
-                        "the fake engine records bytes handed to Transport::sendAsync; delivery of those bytes is C01"]
-    return ctx.finish(level="proof", rule="a case = one op list (codec op, or one segmentation of one generated frame stream fed to a fresh real WebSocketServer session); "
+    ctx.extra["not_proved"] = [
+        "\"cannot throw\" has no theorem: the Lean model is total by construction, so exceptions are only OBSERVED (every harness op runs under catch + ASan/UBSan; a `throw`/`crash:` answer is a W6 violation)",
+        "W5 under true concurrency is proved for the small-step model over the COMPILED SKELETON (W5_concurrent: any threads, any schedule); what that rests on is the translator's abstraction (textual order of lock/flag/send events per function, RAII release on return, frames reach the wire in hand-over order because sendRaw/sendRawBytes serialise under the transport mutex) - tied by the decide obligations on the regenerated skeleton and by DetSched enumeration of 2-3 thread programs against the real code, not by a proof about C++",
+        "server: full events after the session has ended inside a read depend on the segmentation (a ping in the same read as a preceding CLOSE is answered, in a later read it is not): W3_server needs CloseOnlyLast + fitting messages; only deliveries (W3_server_msgs) are unconditional",
+        "client upgrade response: the SHA-1/base64 value of Sec-WebSocket-Accept enters the model as a constant (the expected value), and only accepted/rejected responses are distinguished (negotiated sub-protocol not modelled); rejected responses are checked in lockstep, not characterised by a theorem",
+        "HttpServer::handleIncomingData's HTTP request framing before the upgrade is C15; trailing bytes that contain CRLFCRLF are looked at by that request loop (excluded from the generator)"]
+    ctx.assumptions += ["single I/O thread per session (the per-session receive state is only touched by it); application threads interleave at the locked sections pinned by W5_lock_discipline",
+                        "the fake engine records bytes handed to Transport::sendAsync; delivery of those bytes is C01",
+                        "callbacks are modelled as scripts of sends; other re-entrant calls (disconnect(), stop()) are C02/C05"]
+    return ctx.finish(level="proof", rule="a case = one op list (codec op; one segmentation of one generated frame stream fed to a fresh real session, via onUpgradedData/handleData or through the real upgrade path; a robustness or close-race history; one race program); "
                       "distinct = distinct op lists; non-trivial = at least one answer other than `incomplete`")
 
 
@@ -603,14 +1036,24 @@ def report_property(ctx, hb, c, impl, model, fails, extra=None):
             out = out + ["crash:" + str(rc)] * (len(sub) - len(out))
             cc = dict(c)
             cc["ops"] = sub
-            cc["unsure"] = True      # the message oracle is tied to the full stream
+            cc.pop("expect_msgs", None)      # the message oracle is tied to the full stream
             return bool([f for f in monitor_case(cc, out) if f.split(":")[0] == fails[0].split(":")[0]])
         try:
             if not fails[0].startswith("W3") and still(ops):
-                ops = ddmin(ops, still, max_tests=60)
+                # the configuration prefix (reset with its limit, handshake state, callback scripts) is part of the input: keep it
+                k = 0
+                while k < len(ops) and (ops[k].split()[1] in ("reset", "hs", "script")):
+                    k += 1
+                pre, rest = ops[:k], ops[k:]
+                if len(rest) > 1:
+                    rest = ddmin(rest, lambda sub: still(pre + sub), max_tests=60)
+                ops = pre + rest
         except Exception:
             pass
-    obj = {"ops": ops, "observed": impl if ops is c["ops"] else None, "expected_by_model": model, "failures": fails[:5], "category": c["cat"]}
+    obj = {"ops": ops, "observed": impl if ops is c["ops"] else None, "expected_by_model": model, "failures": fails[:5], "category": c["cat"],
+           "maxframe": c.get("maxframe", 16777216)}
+    if "reason" in c:
+        obj["reason"] = hexs(c["reason"])
     if extra:
         obj.update(extra)
     ctx.violation("property", fails[0], obj, found_input=True)
@@ -626,5 +1069,7 @@ def load_corpus():
                 c.setdefault("cat", "corpus")
                 if "expect_msgs" in c:
                     c["expect_msgs"] = [tuple(unhex(x) if i and isinstance(x, str) else x for i, x in enumerate(e)) for e in c["expect_msgs"]]
+                if "reason" in c and isinstance(c["reason"], str):
+                    c["reason"] = unhex(c["reason"])
                 out.append(c)
     return out
